@@ -1,7 +1,7 @@
 /-
   Conc/DecoderThread.lean — a streaming sound as a labelled transition system over three threads:
     * the decoder thread (`DecodeScheduler::start`): one label = one atomic stretch of its loop
-      (a whole `run()` with the `Ok` arm; on `Err`: the error push; the flag store);
+      (a whole `run()` with the `Ok` arm; on `Err`: the error push; the flag store and the `break`);
     * the audio thread: the owning track's `on_start_processing` for this sound (unload when
       `finished()`, otherwise `Sound::on_start_processing`) and `process` on a chunk;
     * the gameplay thread: handle commands, `pop_error`, dropping the handle;
@@ -35,7 +35,7 @@ inductive Pc where
   | top
   /-- `run()` returned `Err(e)`; before `error_producer.push` (yield point `decoder.loop.before_error_push`) -/
   | errPending (e : Err)
-  /-- the error was pushed; before `encountered_error.store(true)` -/
+  /-- the error was pushed; before `encountered_error.store(true)` and the `break` that follows it -/
   | flagPending
   /-- `break`: the closure returned, the scheduler (decoder, both producers) is dropped -/
   | ended
@@ -48,9 +48,11 @@ inductive Place where
   /-- owned by a live track (in its new-sound ring or its arena): `on_start_processing` / `process` get called -/
   | inTrack
   /-- dropped without being unloaded by `finished()`: refused by a full track, or discarded with its
-      track / manager — the consumer end of the frame ring is gone, nothing is ever processed again -/
+      track / manager — the consumer end of the frame ring is gone (`sys.soundDropped`), nothing is ever
+      processed again -/
   | abandoned
-  /-- removed by its track's `remove_and_add(|s| s.finished())` -/
+  /-- removed by its track's `remove_and_add(|s| s.finished())` (a finished sound is Stopped: the decoder thread
+      ends on that, whenever the box itself is freed) -/
   | unloaded
 deriving DecidableEq, Repr
 
@@ -102,7 +104,7 @@ def dStep (D : Decoder σ α) (fuel : Nat) (l : St σ α) : Option (St σ α) :=
                               firstErr := match l.firstErr with | some f => some f | none => some e }
     | .fault _ => some { l with sys := r.2, pc := .panicked }
   | .errPending e => some { l with sys := l.sys.pushError e, pc := .flagPending }
-  | .flagPending => some { l with sys := l.sys.setErrorFlag, pc := .top, iters := l.iters + 1 }
+  | .flagPending => some { l with sys := l.sys.setErrorFlag, pc := .ended, iters := l.iters + 1 }
   | .ended => none
   | .panicked => none
 
@@ -128,7 +130,8 @@ def step (D : Decoder σ α) (fuel : Nat) (l : St σ α) : Label α → Option (
       some { l with sys := r.2, pops := if r.1.isSome then l.pops + 1 else l.pops }
     else none
   | .hDrop => if l.handle then some { l with handle := false } else none
-  | .abandon => if l.place = .inTrack then some { l with place := .abandoned } else none
+  | .abandon =>
+    if l.place = .inTrack then some { l with place := .abandoned, sys := { l.sys with soundDropped := true } } else none
 
 /-- run a schedule (labels that are not enabled are skipped) -/
 def runSched (D : Decoder σ α) (fuel : Nat) (l : St σ α) : List (Label α) → St σ α
